@@ -450,7 +450,7 @@ func (m *Machine) report(kind, id, msg string, bad *Term) {
 		v.Obs = m.modelObs()
 		p.viol = append(p.viol, v)
 	}
-	if !R.IsConst() {
+	if len(p.known) > 0 {
 		for _, k := range p.known {
 			if m.check(bad, k.r) == Sat {
 				p.knownSeen[k.fid+" "+id]++
@@ -600,7 +600,7 @@ func (m *Machine) RunPath(h *HarnessSpec, prefix []bool, wantSample bool) (res P
 			case summaryFork:
 				outcome, msg = OutInconclusive, "fork escaped summary"
 			default:
-				outcome, msg = OutInconclusive, fmt.Sprintf("engine error: %v\n%s", r, debug.Stack())
+				outcome, msg = OutInconclusive, fmt.Sprintf("engine error: %v @ %s", r, shortStack(debug.Stack()))
 			}
 		}()
 		m.call(nil, token.NoPos, h.Fn, nil)
@@ -791,4 +791,19 @@ func Explore(P *Program, h *HarnessSpec, workers int, sampleEvery int, maxSample
 	sort.Strings(res.Problems)
 	res.WallS = time.Since(t0).Seconds()
 	return res
+}
+
+// shortStack keeps the first few gse frames of a Go stack trace.
+func shortStack(b []byte) string {
+	var out []string
+	for _, l := range strings.Split(string(b), "\n") {
+		l = strings.TrimSpace(l)
+		if strings.HasPrefix(l, "/verif/engine/") {
+			out = append(out, l[len("/verif/engine/"):])
+			if len(out) >= 6 {
+				break
+			}
+		}
+	}
+	return strings.Join(out, " < ")
 }
